@@ -7,6 +7,7 @@ import IsobarV.Pat.Cls.Chance
 import IsobarV.Pat.Cls.Seq1
 import IsobarV.Pat.Cls.Seq2
 import IsobarV.Pat.Cls.Scalar
+import IsobarV.Pat.Cls.Misc
 
 namespace IsobarV.Pat
 
@@ -61,6 +62,11 @@ def clsStepExt (c : Cls) : Option ClsStep :=
   | .randomExponential => some stepExp
   | .randomImpulseSequence => some stepRIS
   | .markov => some stepMarkov
+  | .lsystem => some stepLsystem
+  | .dict => some stepTuple
+  | .dictKey => some stepDictKey
+  | .constP => some stepConstP
+  | .tupP => some stepTuple
   | _ => Option.none
 
 /-- Classes whose `__next__` calls `reset()` on a sub-pattern: their step function receives the generic
@@ -107,6 +113,7 @@ def clsResetExt (c : Cls) : Option (St → St) :=
   | .switchOne => some resetSwitchOne
   | .randomImpulseSequence => some resetRIS
   | .markov => some resetMarkov
+  | .lsystem => some resetLsystem
   | _ => Option.none
 
 end IsobarV.Pat
